@@ -522,6 +522,8 @@ def run(repo: Repo, rep):
     r5_consumers(repo, rep)
     from .c17 import r3_necessary_variables  # declared free variables switch the volume-weighted acceptance of dependent products
     r3_necessary_variables(repo, rep)
+    from .c10 import r5d_exclusive_contributions  # a boundary piece kept from both operands receives twice the density of the rest
+    r5d_exclusive_contributions(repo, rep)
 
 
 _CI = "src/torchphysics/problem/domains/domain2D/circle.py"
